@@ -417,6 +417,21 @@ def stray_store_calls(ctx: Ctx, names: Iterable[str], allowed: Iterable[Func]) -
     return out
 
 
+def path_map_value(top: Func) -> Optional[ast.AST]:
+    """the value given to the evaluation context's `requested_paths` field by the top-level function:
+    `ctx._replace(requested_paths=X)` or a (re)construction `EvalContext(requested_paths=X, ...)` with a non-empty X"""
+    req = None
+    for n in top.own_nodes():
+        if isinstance(n, ast.Call):
+            for k in n.keywords:
+                if k.arg == "requested_paths":
+                    v = k.value
+                    empty = (isinstance(v, ast.Dict) and not v.keys) or (isinstance(v, ast.Call) and not v.args and not v.keywords)
+                    if not empty:
+                        req = v
+    return req
+
+
 def ctx_global_name(ctx: Ctx) -> str:
     """The module global of dds._api that marks a running evaluation (annotated with EvalContext)."""
     m = ctx.prog.module("dds._api")
